@@ -243,3 +243,13 @@ Theorem C16_permutes_only : forall V vcmp fparse attr rev ts ts',
   tree_perm (Parent [] None ts) (Parent [] None ts').
 Proof. exact sort_forest_perm. Qed.
 Print Assumptions C16_permutes_only.
+
+(** The executable instance of "a stable sort": among elements that compare
+    [Equal] the insertion sort keeps the original order (for the arguments this
+    never matters, the comparator being strict; it is why [Sb] can say "ties in
+    original order" for any stable algorithm). *)
+Theorem C16_sort_stable : forall {A} (P : A -> Prop) (c : A -> A -> comparison),
+  tpo_on P c -> forall z l, P z -> Forall P l ->
+  filter (eqv_b c z) (isort c l) = filter (eqv_b c z) l.
+Proof. exact @isort_stable. Qed.
+Print Assumptions C16_sort_stable.
